@@ -82,8 +82,14 @@ func (f *Typecase) Call(s *slip.Scope, args slip.List, depth int) (result slip.O
 }
 
 func typecaseMatch(sym slip.Symbol, key slip.Object) bool {
-	if strings.EqualFold("null", string(sym)) && key == nil {
-		return true
+	if key == nil {
+		// nil is the empty list and a symbol: null symbol list sequence t.
+		for _, h := range []slip.Symbol{"null", slip.SymbolSymbol, slip.ListSymbol, slip.SequenceSymbol, slip.TrueSymbol} {
+			if strings.EqualFold(string(h), string(sym)) {
+				return true
+			}
+		}
+		return false
 	}
 	for _, h := range key.Hierarchy() {
 		if strings.EqualFold(string(h), string(sym)) {
